@@ -1527,6 +1527,15 @@ class Interp:
             if meth == "back":
                 r = ElemRef(recv, len(recv.items) - 1)
                 return r if want_ref else r.get()
+            if meth == "pop_front":
+                if not recv.items:
+                    raise AssertFail("pop_front on an empty container")
+                del recv.items[0]
+                if cname.startswith("std::list<") or cname.startswith("std::__cxx11::list<"):
+                    for it_ in list(recv.__dict__.get("_track") or ()):
+                        if it_.i >= 1:
+                            it_.i -= 1
+                return None
             if meth == "pop_back":
                 recv.items.pop()
                 return None
